@@ -1,10 +1,11 @@
 (* C11 driver: trace validation of the parallel pivot search against the extracted model (Model/Pivot.v).
 
    A case line has sections separated by " | ":
-     ctl <policy> <seed> <R|C> <O|U|W<w>> <nr> <nc> <k> | <triplets> | <trace> | <ret> | <p> | <q>
-     unc <R|C> <cond> <nr> <nc> <k>                     | <triplets> | <ret> | <p> | <q>
-     seq <R|C> <cond> <nr> <nc>                         | <triplets> | <ret> | <p> | <q>
+     ctl <policy> <seed> <ring> <R|C> <O|U|W<w>> <nr> <nc> <k> | <entries> | <triplets> | <trace> | <ret> | <p> | <q>
+     unc <ring> <R|C> <cond> <nr> <nc> <k>                     | <entries> | <triplets> | <ret> | <p> | <q>
+     seq <ring> <R|C> <cond> <nr> <nc>                         | <entries> | <triplets> | <ret> | <p> | <q>
      stats ...
+   entries: the generated ring elements (used by the harness to rebuild the matrix; ignored here);
    triplets: "i,j,nz,pm1,unit,w" in a.iter() order ("-" = none);
    trace: S<t>:<row>=s<j>:<len> | S<t>:<row>=n | E<t>=r<len> | E<t>=c<j>:<len> | R<t>=s<j>:<len> | R<t>=n
    ret: the list returned by find_pivots in matrix coordinates "i:j ..." ("-" = empty, "!X" = no result);
@@ -126,9 +127,9 @@ let phases12 (m : mstr) : plog =
 
 let handle_inner (line : string) : string =
   match sections line with
-  | [hd; trips; trace; ret; p; q] when String.length hd > 3 && String.sub hd 0 3 = "ctl" ->
+  | [hd; _entries; trips; trace; ret; p; q] when String.length hd > 3 && String.sub hd 0 3 = "ctl" ->
       (match split_ws hd with
-       | [_; _pol; _seed; pt; cond; nr; nc; k] ->
+       | [_; _pol; _seed; _ring; pt; cond; nr; nc; k] ->
            let pt = parse_pt pt and cond = parse_cond cond in
            let nr = nat_of_string nr and nc = nat_of_string nc and k = nat_of_string k in
            let m = build_str pt cond nr nc (parse_trips trips) in
@@ -148,9 +149,9 @@ let handle_inner (line : string) : string =
            check_result pt nr nc m (Some final.g_log) ret p q;
            "OK"
        | _ -> failwith "ctl header")
-  | [hd; trips; ret; p; q] when String.length hd > 3 && String.sub hd 0 3 = "seq" ->
+  | [hd; _entries; trips; ret; p; q] when String.length hd > 3 && String.sub hd 0 3 = "seq" ->
       (match split_ws hd with
-       | [_; pt; cond; nr; nc] ->
+       | [_; _ring; pt; cond; nr; nc] ->
            let pt = parse_pt pt and cond = parse_cond cond in
            let nr = nat_of_string nr and nc = nat_of_string nc in
            let m = build_str pt cond nr nc (parse_trips trips) in
@@ -162,9 +163,9 @@ let handle_inner (line : string) : string =
             | Some s -> if not (terminal (ni 1) s) then bad "SEQ non-terminal";
                         check_result pt nr nc m (Some s.g_log) ret p q; "OK")
        | _ -> failwith "seq header")
-  | [hd; trips; ret; p; q] when String.length hd > 3 && String.sub hd 0 3 = "unc" ->
+  | [hd; _entries; trips; ret; p; q] when String.length hd > 3 && String.sub hd 0 3 = "unc" ->
       (match split_ws hd with
-       | [_; pt; cond; nr; nc; _k] ->
+       | [_; _ring; pt; cond; nr; nc; _k] ->
            let pt = parse_pt pt and cond = parse_cond cond in
            let nr = nat_of_string nr and nc = nat_of_string nc in
            let m = build_str pt cond nr nc (parse_trips trips) in
